@@ -247,3 +247,15 @@ func (r *sqlRows) Next(dest []driver.Value) error {
 	r.pos++
 	return nil
 }
+
+// Lookup returns the stored key_record for (id, created) or "".
+func (t *SQLTable) Lookup(id string, created time.Time) string {
+	t.mu.Lock()
+	defer t.mu.Unlock()
+	for _, r := range t.Rows {
+		if r.id == id && r.created.Equal(created) {
+			return r.rec
+		}
+	}
+	return ""
+}
